@@ -534,6 +534,21 @@ def run(ctx):
                 elif not mats_close(P2, P):
                     stmt_fail(f"P changes when the weights of path {i} are multiplied by {c}",
                               {"kind": "scale", "W": W, "locks": locks, "row": i, "factor": c, "offset": 1, "impl": P, "impl_scaled": P2})
+                # ... also by very small / very large (dyadic, hence exact) factors, one row and all rows
+                if t % 4 == 0:
+                    for tag, factors in (("one tiny", {i: 2.0 ** -40}), ("one huge", {i: 2.0 ** 40}),
+                                         ("all tiny", {r: 2.0 ** -(30 + r) for r in range(1, m + 1)}),
+                                         ("all huge", {r: 2.0 ** (30 + r) for r in range(1, m + 1)})):
+                        W3 = [[factors.get(r, 1) * x for x in row] for r, row in enumerate(W)]
+                        P3, exc3 = real_inf(mk_state(len(W)), W3, locks)
+                        ctx.count(("scale-extreme", enc_mat(W), enc_locks(locks), tag))
+                        if P3 is None:
+                            stmt_fail(f"inf_retis raised {exc3} after rescaling ({tag}) the weights of whole paths",
+                                      {"kind": "inf_retis", "W": W3, "locks": locks, "offset": 1, "case": "rescaled rows " + tag})
+                        elif not mats_close(P3, P):
+                            stmt_fail(f"P changes when the weights of whole paths are rescaled ({tag}: factors {factors})",
+                                      {"kind": "inf_retis", "W": W3, "locks": locks, "offset": 1, "case": "rescaled rows " + tag,
+                                       "impl_unscaled": P, "impl_scaled": P3})
         if t % 200 == 199:
             B.flush(runner)
     B.flush(runner)
